@@ -35,7 +35,7 @@ def make_items(tier, seed):
     unit_q = corpus.u_unit(widths=(2, 3, 4))
     prand = corpus.u_prog_random(600 if tier == "thorough" else 300)
     core_progs = small[:40] + ctl + rej + unit_q[:: max(1, len(unit_q) // 150)] + prand[:80]
-    rest_progs = prand[80:] + small[40:] + unit_q + corpus.u_bool_multistmt() + corpus.u_bool_random(300) + corpus.u_bool_or_of_ands()[::9] + corpus.u_repo_frozen()
+    rest_progs = corpus.u_stale() + prand[80:] + small[40:] + unit_q + corpus.u_bool_multistmt() + corpus.u_bool_random(300) + corpus.u_bool_or_of_ands()[::9] + corpus.u_repo_frozen()
     if tier == "thorough":
         wide = corpus.u_unit(widths=(5, 6, 8), consts=(0, 1, 3, 6, 10, 12, 14, 15, 200, 255)) + corpus.u_unit_pairs([(2, 8), (8, 2), (4, 8), (8, 4), (8, 12), (12, 8), (12, 16), (16, 12), (16, 16), (3, 6), (6, 3)])
         # symbolic-by-symbolic products and powers above 4 bits make sympy (not the solver) run for
